@@ -280,11 +280,19 @@ func (r *refreshReq) GetScopes() []string {
 type ccRequest struct {
 	client string
 	scopes []string
+	// emptyAud: the request answers an empty (not nil) audience list, as one read from a JSON [] or an SQL array does:
+	// "no audience of its own", for which the library's tokens name the client
+	emptyAud bool
 }
 
-func (r *ccRequest) GetSubject() string    { return r.client }
-func (r *ccRequest) GetAudience() []string { return []string{r.client} }
-func (r *ccRequest) GetScopes() []string   { return r.scopes }
+func (r *ccRequest) GetSubject() string { return r.client }
+func (r *ccRequest) GetAudience() []string {
+	if r.emptyAud {
+		return []string{}
+	}
+	return []string{r.client}
+}
+func (r *ccRequest) GetScopes() []string { return r.scopes }
 
 type Device struct {
 	Code, UserCode string
@@ -391,6 +399,10 @@ type Store struct {
 	// UnknownClientAs: how an unknown client id is reported: "" = a plain not-found error, "oauth" = the storage's own
 	// OAuth error (invalid_client), "oauth-wrapped" = that error wrapped with context
 	UnknownClientAs string
+	// TrustJWTExpiry: see liveToken
+	TrustJWTExpiry bool
+	// EmptyAudience: client-credentials requests answer an empty, non-nil audience list
+	EmptyAudience bool
 	// counters of the rarely used capabilities
 	EndFromRequestCalls, ThirdPartyAccepted int
 }
@@ -975,8 +987,15 @@ func (s *Store) SetUserinfoFromScopes(ctx context.Context, info *oidc.UserInfo, 
 // revoked, not expired, session not terminated.
 func (s *Store) liveToken(id, subject string) *Token {
 	t := s.Tokens[id]
-	if t == nil || t.Revoked || t.Subject != subject || time.Now().After(t.Exp) {
+	if t == nil || t.Revoked || t.Subject != subject {
 		return nil
+	}
+	if time.Now().After(t.Exp) {
+		// TrustJWTExpiry: for clients with JWT access tokens this storage leaves the expiry to the library, which has
+		// verified the token's own exp claim before it asks (the example storage does the same)
+		if c := s.Clients[t.Client]; !(s.TrustJWTExpiry && c != nil && c.TokenType == op.AccessTokenTypeJWT) {
+			return nil
+		}
 	}
 	return t
 }
